@@ -50,7 +50,11 @@ CHAIN = %(tag)s
 CMD = {"req": "setupRequired", "opt": "setupOptional", "unreq": "unsetupRequired", "unopt": "unsetupOptional"}
 
 
-def table_text(deps):
+def table_text(deps, xdeps=None):
+    if xdeps is not None:
+        # an expandtable-style table: the exact branch lists the as-built dependencies, the else branch the ones written
+        ind = lambda t: "".join("   " + l + "\n" for l in t.splitlines())
+        return "if (type == exact) {\n%s} else {\n%s}\n" % (ind(table_text(xdeps)), ind(table_text(deps)))
     out = []
     for d in deps:
         args = []
@@ -82,7 +86,7 @@ def install(root, graph, default_product=False):
             d = os.path.join(s, FLAVOR, n, v)
             os.makedirs(d, exist_ok=True)
         else:
-            d = common.mkprod(s, n, v, table_text(p["deps"]))
+            d = common.mkprod(s, n, v, table_text(p["deps"], p.get("xdeps")))
         if p.get("missing"):
             os.unlink(os.path.join(d, "ups", n + ".table"))     # declared, but the table file is gone
         if p.get("payload", True):
